@@ -856,10 +856,19 @@ def r17_disjoint_any_order(chk, prog, rule='R17'):
             if h is None or not (c.get('callee') or '').startswith('celma::'):
                 continue
             pos = g.cfg.position(c)
-            guarded = any(cond is not None and any(
-                y.get('k') in CALL_KINDS and (y.get('callee') or '').split('::')[-1].split('<')[0] == 'is_sorted'
-                for y in walk(cond)) and g.cfg.guarded_by_edge(pos, bid, 0) for bid, cond in g.cfg.cond_blocks())
-            if guarded:
+            # the ranges handed on must ALL be known to be sorted: variables of the call's arguments vs. variables
+            # tested by is_sorted() in conditions whose true edge guards the call
+            handed = {y['ref'].get('name') for a in call_args(c) for y in walk(a) if y.get('k') == 'DeclRefExpr' and
+                      y['ref'].get('sto') in ('param', 'local')}
+            tested = set()
+            for bid, cond in g.cfg.cond_blocks():
+                if cond is None or not g.cfg.guarded_by_edge(pos, bid, 0):
+                    continue
+                for y in walk(cond):
+                    if y.get('k') in CALL_KINDS and (y.get('callee') or '').split('::')[-1].split('<')[0] == 'is_sorted':
+                        tested |= {z['ref'].get('name') for z in walk(y) if z.get('k') == 'DeclRefExpr' and
+                                   z['ref'].get('sto') in ('param', 'local')}
+            if tested and handed <= tested:
                 continue
             if merge_shaped(h):
                 return h.name
